@@ -558,14 +558,11 @@ Proof.
 Qed.
 
 (* ---- small facts ---- *)
-Lemma update_max_ok s r : r < INT_MAX ->
+Lemma update_max_ok s r :
   exists s', update_max s r = Ok s' /\ (forall i, live s' i = live s i) /\ head s' = head s /\
-             num s' = num s /\ length (store s') = length (store s) /\
-             maxx s' = (if r >=? maxx s then r + 1 else maxx s).
+             num s' = num s /\ length (store s') = length (store s).
 Proof.
-  intros Hr. unfold update_max. destruct (r >=? maxx s).
-  - destruct (Z.gtb_spec (r + 1) INT_MAX); [lia|]. eexists. split; [reflexivity|]. repeat split.
-  - eexists. split; [reflexivity|]. repeat split.
+  unfold update_max. destruct (r >=? maxx s); eexists; (split; [reflexivity|]); repeat split.
 Qed.
 
 Lemma NoDup_insert (l1 l2 : list nat) x : NoDup (l1 ++ l2) -> ~ In x (l1 ++ l2) -> NoDup (l1 ++ x :: l2).
@@ -611,7 +608,7 @@ Definition running (s : rl) (i : nat) : bool :=
 
 (* ------------------------------------------------------------------ creation *)
 Lemma create_spec s l rank :
-  WF s l -> (rank = -1 \/ 0 <= rank) -> rank < INT_MAX -> Z.of_nat (length (store s)) < INT_MAX ->
+  WF s l -> (rank = -1 \/ 0 <= rank) -> rank <= INT_MAX -> Z.of_nat (length (store s)) < INT_MAX ->
   let nw := length (store s) in
   (0 <= rank /\ In rank (ranks s l) /\
    exists s', api_create s false rank = Ok (s', [ERR_INV_XSTREAM_RANK]) /\ WF s' l /\
@@ -650,7 +647,7 @@ Proof.
      (if rank =? -1 then rk <- auto_scan (fuel_of s1) s1 0 (head s1);; Ok (Some rk)
       else av <- avail_scan (fuel_of s1) s1 rank (head s1);; Ok (if av : bool then Some rank else None))
      = Ok None) \/
-    (exists r, 0 < r < INT_MAX /\ ~ In r (ranks s l) /\
+    (exists r, 0 < r <= INT_MAX /\ ~ In r (ranks s l) /\
        (rank = -1 -> forall k, 0 <= k < r -> In k (ranks s l)) /\ (rank <> -1 -> r = rank) /\
      (if rank =? -1 then rk <- auto_scan (fuel_of s1) s1 0 (head s1);; Ok (Some rk)
       else av <- avail_scan (fuel_of s1) s1 rank (head s1);; Ok (if av : bool then Some rank else None))
@@ -704,7 +701,7 @@ Proof.
     { exists 0%nat, t. split; auto. rewrite rank_of_live_eq with (s := s) by (apply Hold2; rewrite Hlt; left; auto).
       rewrite (wf_rank0 _ _ W). cbn. lia. }
     rewrite Hadd. cbn [bind].
-    destruct (update_max_ok s3 r) as (s4 & Hum & Hlv4 & Hh4 & Hn4 & Hlen4 & Hmx4); [lia|].
+    destruct (update_max_ok s3 r) as (s4 & Hum & Hlv4 & Hh4 & Hn4 & Hlen4).
     rewrite Hum. cbn [bind fst snd].
     set (s5 := set_num s4 (num s4 + 1)).
     assert (Hlv5 : forall i, live s5 i = live s3 i) by (intros; unfold s5; apply Hlv4).
@@ -783,7 +780,7 @@ Lemma WF_live_some s l i : WF s l -> In i l -> exists n, live s i = Some n.
 Proof. intros W Hi. apply (wf_live _ _ W) in Hi. destruct (live s i); [eauto|congruence]. Qed.
 
 Lemma set_rank_spec s l i r :
-  WF s l -> In i l -> i <> 0%nat -> 0 <= r < INT_MAX ->
+  WF s l -> In i l -> i <> 0%nat -> 0 <= r <= INT_MAX ->
   ((exists j, In j l /\ j <> i /\ rank_of s j = r) /\
    api_set_rank s i r = Ok (s, ERR_INV_XSTREAM_RANK))
   \/
@@ -854,7 +851,7 @@ Proof.
       { exists 0%nat, (t1 ++ l2). split; [rewrite Hl1; reflexivity|].
         rewrite Hrk2 by auto. rewrite (wf_rank0 _ _ W). cbn. lia. }
       rewrite Hadd. cbn [bind].
-      destruct (update_max_ok s3 r) as (s4 & Hum & Hlv4 & Hh4 & Hn4 & Hlen4 & Hmx4); [lia|].
+      destruct (update_max_ok s3 r) as (s4 & Hum & Hlv4 & Hh4 & Hn4 & Hlen4).
       rewrite Hum. cbn [bind fst snd].
       assert (Hni' : ~ In i (l1' ++ l2')) by (rewrite <- Hl'; auto).
       assert (Hag : agree_old s s4 i).
@@ -988,7 +985,7 @@ Qed.
 (* ------------------------------------------------------------------ every API call preserves the invariant *)
 Definition op_ok (o : aop) : Prop :=
   match o with
-  | ACreateRank r | ASetRank _ r | ASelfSetRank _ r => r < INT_MAX
+  | ACreateRank r | ASetRank _ r | ASelfSetRank _ r => r <= INT_MAX
   | _ => True
   end.
 
@@ -1002,7 +999,7 @@ Proof.
 Qed.
 
 Lemma api_set_rank_total s l i r :
-  WF s l -> r < INT_MAX ->
+  WF s l -> r <= INT_MAX ->
   exists s' rc l', api_set_rank s i r = Ok (s', rc) /\ WF s' l' /\
                    length (store s') = length (store s) /\
                    (live s i <> None -> live s' i <> None).
@@ -1041,7 +1038,7 @@ Lemma step_WF s l o :
   exists s' r l', api_step s o = Ok (s', r) /\ WF s' l' /\
                   (length (store s') <= S (length (store s)))%nat.
 Proof.
-  intros W Hok Hlen. destruct o as [|r|i r|i r|i|i|i|i| |i|i]; cbn [api_step op_ok] in *.
+  intros W Hok Hlen. destruct o as [|r|i r|i r|i|i|i|i| |i|i|i]; cbn [api_step op_ok] in *.
   - destruct (create_spec s l (-1) W (or_introl eq_refl) ltac:(unfold INT_MAX; lia) Hlen)
       as [(H0 & _)|(s' & r & l1 & l2 & E & _ & _ & _ & W' & _ & _ & _ & Hl & _)]; [lia|].
     rewrite E. eexists _, _, _. split; [reflexivity|]. split; [exact W'|]. lia.
@@ -1078,6 +1075,8 @@ Proof.
   - eexists _, _, _; (split; [reflexivity|]); (split; [exact W|lia]).
   - destruct (live s i); eexists _, _, _; (split; [reflexivity|]); (split; [exact W|lia]).
   - destruct (live s i) as [n|]; [destruct (n_running n)|]; eexists _, _, _; (split; [reflexivity|]); (split; [exact W|lia]).
+  - destruct (live s i) as [n|]; [destruct (n_running n && negb (n_primary n))|];
+      eexists _, _, _; (split; [reflexivity|]); (split; [exact W|lia]).
 Qed.
 
 (* ------------------------------------------------------------------ initial state, runs *)
